@@ -32,6 +32,9 @@ pub enum Op {
     RetainNone,
     RetainNot(String),
     RetainEvenIdx,
+    /// retain with a predicate that renames the element at the index (to a fresh name) and 0: keeps everything, 1: drops the
+    /// renamed element, 2: keeps only the renamed element, 3: drops the first element
+    RetainRename(usize, String, u8),
     Truncate(usize),
     SortAsc,
     SortDesc,
@@ -85,6 +88,13 @@ pub fn actions(st: &St, alphabet: &[String]) -> Vec<Op> {
         v.push(Op::Truncate(i));
         if let Some(n) = absent.first() {
             v.push(Op::Rename(i, (*n).clone()));
+        }
+    }
+    if let Some(n) = absent.first() {
+        for i in 0..len {
+            for mode in 0..4u8 {
+                v.push(Op::RetainRename(i, (*n).clone(), mode));
+            }
         }
     }
     v.push(Op::RetainAll);
@@ -160,6 +170,36 @@ pub fn step(st: &St, op: &Op) -> Result<St, String> {
             Op::RetainNot(n) => {
                 ns.list.retain(|i| &i.name != n);
                 ns.model.retain(|m| &m.0 != n);
+            }
+            Op::RetainRename(idx, n, mode) => {
+                let mut k = 0usize;
+                ns.list.retain(|it| {
+                    let here = k == *idx;
+                    if here {
+                        it.set_name(n.clone());
+                    }
+                    k += 1;
+                    match mode {
+                        0 => true,
+                        1 => !here,
+                        2 => here,
+                        _ => k != 1,
+                    }
+                });
+                if *idx < ns.model.len() {
+                    ns.model[*idx].0 = n.clone();
+                }
+                let mut k = 0usize;
+                ns.model.retain(|_| {
+                    let here = k == *idx;
+                    k += 1;
+                    match mode {
+                        0 => true,
+                        1 => !here,
+                        2 => here,
+                        _ => k != 1,
+                    }
+                });
             }
             Op::RetainEvenIdx => {
                 let mut k = 0;
@@ -553,6 +593,7 @@ fn ops_to_json(h: &[Op]) -> Value {
                 Op::RetainNone => json!(["retain_none"]),
                 Op::RetainNot(n) => json!(["retain_not", n]),
                 Op::RetainEvenIdx => json!(["retain_even"]),
+                Op::RetainRename(i, n, m) => json!(["retain_rename", i, n, m]),
                 Op::Truncate(k) => json!(["truncate", k]),
                 Op::SortAsc => json!(["sort_asc"]),
                 Op::SortDesc => json!(["sort_desc"]),
@@ -581,6 +622,7 @@ fn op_from_json(v: &Value) -> Option<Op> {
         "retain_none" => Op::RetainNone,
         "retain_not" => Op::RetainNot(s(1)?),
         "retain_even" => Op::RetainEvenIdx,
+        "retain_rename" => Op::RetainRename(u(1)?, s(2)?, u(3).unwrap_or(0) as u8),
         "truncate" => Op::Truncate(u(1)?),
         "sort_asc" => Op::SortAsc,
         "sort_desc" => Op::SortDesc,
